@@ -314,6 +314,18 @@ def edge_replay(rep, g, c, traces, maxedges, rng):
     return n, mism
 
 
+def resolvable(run):
+    """every local component grid of every leaf has its points on the lattice of the trace specification: width in lattice units >= 2^(local level)"""
+    lmax = int(run.combi.lmax[0])
+    for o in run.leaves():
+        top = max(0, lmax - int(o.coarseningValue))
+        for d in range(run.D):
+            w = (o.end[d] - o.start[d]) * LAT / (run.b[d] - run.a[d])
+            if w < 2 ** top - 1e-9:
+                return False
+    return True
+
+
 def random_history(rng, c, steps):
     via = c.get('continue_via') or rng.choice(['resume', 'resume', 'resume', 'container', 'mixed'])
     run = ESRun(c['D'], c['lmin'], c['lmax'], version=c['version'], nrbe=c['nrbe'], auto=c.get('auto', False), single=c.get('single', False),
@@ -353,6 +365,12 @@ def random_history(rng, c, steps):
             break
         evs.append(do_step(run, B))
         script.append(B)
+        if not resolvable(run):
+            # the finest local grid of some area is finer than the lattice of the trace specification (deep extend chains raise lmax quickly):
+            # the state cannot be expressed on the lattice, the history ends with the previous state
+            evs.pop()
+            script.pop()
+            break
     return {'cfg': trace_cfg(run), 'events': [strip(e) for e in evs], 'origin': 'random ' + c['name'] + ('' if via == 'resume' else ' (continued via %s)' % via),
             '_script': {'cfg': dict(run.cfg, continue_via=via), 'steps': script}, '_detail': [e.get('_detail') for e in evs]}
 
